@@ -1245,7 +1245,9 @@ def h_filter_next(pol):
         if not ok and item is not None and ctx.body.impl['self'].get('path') == DIFFREF:
             # a set of references: the element itself (a copy of the stored reference) is yielded
             t = vtag(item)
-            ok = isinstance(t, tuple) and len(t) == 4 and t[0] == 'stored' and t[1] == L and t[3] == 0
+            if t is None and item[0] == 'ref' and item[2][0] == 'opq':
+                t = item[2][1]       # the stored reference itself, seen as a pointer into user memory
+            ok = isinstance(t, tuple) and len(t) >= 4 and t[0] == 'stored' and t[1] == L and t[3] == 0
             i = t[2] if ok else None
         ctx.req('FLOW', ok, nm + ':some', 'the yielded reference must point to an element of the left operand itself', p)
         if not ok:
@@ -1257,7 +1259,9 @@ def h_filter_next(pol):
             ctx.req('POL', False, nm + ':some', 'the yielded element was not looked up in the right operand', p)
             return
         _, kind, hh, probe = pr
-        mine = (probe is None and kind == 'miss') or (_is_key_of(probe, L) and z.entails_eq(probe[2], i))
+        mine = (probe is None and kind == 'miss') or (_is_key_of(probe, L) and z.entails_eq(probe[2], i)) or (
+            isinstance(probe, tuple) and len(probe) >= 4 and probe[0] == 'stored' and probe[1] == L and probe[3] == 0
+            and z.entails_eq(probe[2], i))
         if pol == 'diff':
             ctx.req('POL', kind == 'miss' and mine, nm + ':some',
                     'an element may be yielded only if it was looked up in the right operand and NOT found', p)
